@@ -157,6 +157,21 @@ def check(ctx):
                              f"from the eigenvalues of the precision (instance tolerance"
                              + (", effective rank)" if pname == "log_pdet" else ")"), ok_p_,
                detail=short(rp_ or (), 160), stmt=f"{pname} property")
+    # derived quantities are pure: computing rank / log-pdet / eig / sqrt-pcov never writes
+    # the distribution (in particular not its `parameters`, from which copy() re-creates it
+    # -- a remembered rank would be handed to a copy with another precision matrix)
+    for pname in ("rank", "log_pdet", "eig", "_sqrt_pcov"):
+        pf = method(repo, mv, pname, own=True)
+        rpp = evaluate(repo, pf)
+        writes = [pretty(loc)[:50] for loc, _, _, _ in rpp.stores
+                  if SELF_ in set(subterms(loc))]
+        writes += [pretty(t)[:50] for t, _, _ in rpp.calls if t[0] == "call" and t[1][0] == "a"
+                   and (t[1][1] == SELF_ or (t[1][1][0] == "a" and t[1][1][1] == SELF_
+                                             and t[1][2] in ("update", "append", "setdefault",
+                                                             "pop", "clear", "__setitem__")))]
+        ctx.ob("C18.R1", pf, f"{pname} only reads the distribution (no field, no entry of "
+                             f"`parameters` is written while it is computed)", not writes,
+               detail="; ".join(writes[:3]), stmt=f"{pname} writes " + "; ".join(writes[:2]))
     lpf = method(repo, mv, "_log_prob", own=True)
     rl = evaluate(repo, lpf).ret()
     ok_lp = False
